@@ -156,13 +156,17 @@ func cmdV3Base(args []string) {
 			upto := map[byte]int{'B': 8, 'T': 11, 'E': 22}[dec]
 			variants := 1
 			if dec != 'B' {
-				variants = 2
+				variants = 3
 			}
 			for variant := 0; variant < variants; variant++ {
-				w2 := v // copy; higher-level metrics randomised in variant 1
+				w2 := v // copy; higher-level metrics randomised in variant 1, exactly one defined in variant 2
 				omit := uint32(0)
 				if variant == 1 {
 					randHigher(rng, &w2, 8, upto)
+				} else if variant == 2 {
+					k := 8 + rng.Intn(upto-8)
+					w2[k] = uint8(1 + rng.Intn(len(v3Defs[k].Codes)-1))
+					omit = xMask(&w2, 8, upto)
 				} else {
 					omit = xMask(&w2, 8, upto)
 				}
@@ -179,6 +183,25 @@ func cmdV3Base(args []string) {
 					if err != nil {
 						rec.Add(v3ErrBody(ver, &v, "B", err), src)
 						continue
+					}
+					// vary what was asked of the object before the base view is read
+					if pre := rng.Intn(4); dec != 'B' && pre > 0 {
+						switch {
+						case dec == 'T' && pre == 1:
+							o.t.Score()
+						case dec == 'T':
+							o.t.Encode()
+							o.t.Severity()
+						case dec == 'E' && pre == 1:
+							o.e.Score()
+						case dec == 'E' && pre == 2:
+							o.e.Severity()
+							o.e.TemporalMetrics().Score()
+						default:
+							o.e.Encode()
+							o.e.GetError()
+						}
+						src += fmt.Sprintf(" after=%d", pre)
 					}
 					switch dec {
 					case 'B':
@@ -276,8 +299,24 @@ func cmdV3Temporal(args []string) {
 						continue
 					}
 					if dec == 'T' {
+						if rng.Intn(2) == 0 {
+							o.t.BaseMetrics().Score()
+							o.t.Encode()
+						}
 						rec.Add(v3EventBody(ver, &v, "T", o.t.Score(), o.t.Severity().String(), direct), src+" via=Score")
 					} else {
+						if pre := rng.Intn(4); pre == 1 {
+							o.e.Score()
+							src += " after=Score"
+						} else if pre == 3 {
+							o.e.TemporalMetrics().Score()
+							o.e.Score()
+							src += " after=Temporal.Score,Score"
+						} else if pre == 2 {
+							o.e.Severity()
+							o.e.Encode()
+							src += " after=Severity,Encode"
+						}
 						tm := o.e.TemporalMetrics()
 						rec.Add(v3EventBody(ver, &v, "T", tm.Score(), tm.Severity().String(), direct), src+" via=TemporalMetrics")
 						rec.Add(v3EventBody(ver, &v, "T", o.e.Temporal.Score(), o.e.Temporal.Severity().String(), direct), src+" via=.Temporal")
